@@ -69,7 +69,17 @@ pub fn run(args: &[String]) {
                     match IpcOneShotServer::<u64>::new() {
                         Ok((server, name)) => {
                             // the address actually bound is the returned name, inside its own directory under the temp root
-                            let bound: Vec<String> = ip::take_trace().into_iter().filter_map(|(_, e)| if let Ev::Bind { path, r: 0, .. } = e { Some(path) } else { None }).collect();
+                            let tr = ip::take_trace();
+                            // the rendezvous descriptor must not be inheritable: a process spawned while the server lives would
+                            // keep the listening socket (and the name) alive after accept / drop
+                            for (_, e) in &tr {
+                                if let Ev::Socket { fd, cloexec: false } = e {
+                                    if *fd >= 0 && !ip::fd_cloexec(*fd) {
+                                        case.fail(format!("the listening socket of a one-shot server (descriptor {}) is inheritable (no close-on-exec)", fd));
+                                    }
+                                }
+                            }
+                            let bound: Vec<String> = tr.into_iter().filter_map(|(_, e)| if let Ev::Bind { path, r: 0, .. } = e { Some(path) } else { None }).collect();
                             if bound != vec![name.clone()] {
                                 case.fail(format!("server name {} but the socket was bound to {:?}", name, bound));
                             }
@@ -217,7 +227,16 @@ pub fn run(args: &[String]) {
                     let c = srvs[s].backlog.remove(0);
                     let server = srvs[s].server.take().unwrap();
                     ops.push(format!("accept {}", s));
-                    match server.accept() {
+                    let _ = ip::take_trace();
+                    let acc = server.accept();
+                    for (_, e) in ip::take_trace() {
+                        if let Ev::Accept { r, cloexec: false, .. } = e {
+                            if r >= 0 && !ip::fd_cloexec(r) {
+                                case.fail(format!("the connection accepted by a one-shot server (descriptor {}) is inheritable (no close-on-exec)", r));
+                            }
+                        }
+                    }
+                    match acc {
                         Ok((rx, t)) => {
                             res.push(format!("accepted:{}:{}", c, t));
                             conns[c].rx = Some(rx);
